@@ -591,6 +591,11 @@ func runOnce(c Case) (out outcome) {
 				}
 				continue
 			}
+			// The write-back may have finished between the two reads (upload done, persist
+			// flag cleared, blob evicted). The backend never loses data, so look again.
+			if v2, ok2 := w.backends[a.ns].get(blobDig[a.blob].Hex()); ok2 && bytes.Equal(v2, blobData[a.blob]) {
+				continue
+			}
 			info := acked[a]
 			state := "the origin cache no longer holds it"
 			if ok {
